@@ -287,6 +287,14 @@ func (lc *leaderController) NewTerm(req *proto.NewTermRequest) (*proto.NewTermRe
 	}
 
 	lc.followers = nil
+
+	// The entries that were already appended, while their sync was still
+	// pending, are part of the log: they have to be included in the head
+	// entry that we report
+	if err := lc.wal.Sync(context.Background()); err != nil {
+		return nil, err
+	}
+
 	headEntryId, err := getLastEntryIdInWal(lc.wal)
 	if err != nil {
 		return nil, err
